@@ -55,13 +55,13 @@ def scan_trusted(text):
     return out
 
 
-def run_unit(unit_name, extra_args=(), keep=True, inject=None, inject_false=None, tag=''):
+def run_unit(unit_name, extra_args=(), keep=True, inject=None, inject_false=None, tag='', extra_consts=None):
     """Returns a result dict.  inject: optional function(text)->text used by the vacuity self-test."""
     t0 = time.time()
     res = {'unit': unit_name, 'status': 'ok', 'undecided': [], 'obligations': [], 'errors': [],
            'wall_s': 0.0, 'solver_ms': {}, 'functions': [], 'dropped': [], 'trusted': [], 'cmd': ''}
     try:
-        u, g, text = gen.generate(unit_name, inject_false=inject_false)
+        u, g, text = gen.generate(unit_name, inject_false=inject_false, extra_consts=extra_consts)
     except gen.SpecError as e:
         res['status'] = 'undecided'
         res['undecided'].append(str(e))
@@ -106,6 +106,27 @@ def run_unit(unit_name, extra_args=(), keep=True, inject=None, inject_false=None
             if d.get('$message_type') == 'diagnostic':
                 diags.append(d)
     errors = [d for d in diags if d.get('level') == 'error' and not d['message'].startswith('aborting due to')]
+    # R31: unknown ALL_CAPS value = a const of the same source file the sidecar does not list yet: extract it too and run again (once)
+    if extra_consts is None:
+        want = []
+        for d in errors:
+            m = re.match(r'cannot find value `([A-Z][A-Z0-9_]*)` in this scope', d.get('message', ''))
+            if not m:
+                continue
+            ln = next((sp['line_start'] for sp in d.get('spans', []) if sp.get('is_primary')), None)
+            reg = next((r for r in g.regions if ln is not None and r['line0'] <= ln <= r['line1'] and r.get('src')), None)
+            if reg:
+                cfile = reg['src'].rsplit(':', 1)[0]
+                try:
+                    gen.find_item(cfile, 'const', m.group(1))
+                    if (cfile, m.group(1)) not in want:
+                        want.append((cfile, m.group(1)))
+                except Exception:
+                    pass
+        if want:
+            r2 = run_unit(unit_name, extra_args, keep, inject, inject_false, tag, extra_consts=want)
+            r2.setdefault('auto_consts', want)
+            return r2
     vr = (js or {}).get('verification-results', {})
     res['verus_summary'] = vr
     if js:
